@@ -75,6 +75,22 @@ CLAIMS = {
         text="Grid.tla defines ceil(M/dt)+1, (T-1-i)dt modulo T and floor(start/dt) over rationals and TLC checks the grid invariants for M=(k+f)dt, k=1..60 (thorough ..260 and large), "
              "10 step sizes, 5 fractions; the harness passes the floats a user would type to the real instruments and compares buffer shapes, time_to_maturity(i|None), hedge and payoff shapes.",
         note="Trusted: TLC, torch. time to maturity within 4*eps*(T-1)*dt, exact zero at the end; BrownianStock on all cases, the other 7 primaries on every 11th."),
+    "C19": dict(
+        engine="Bisect.tla (PlusCal) / TLC -> exact trajectory replay",
+        technique="PlusCal algorithm of bisect() model-checked over all monotone tables on a grid (safety + termination); every behaviour replayed with the evaluation-point trajectory compared exactly; postcondition on continuous families and implied volatility",
+        category=MC, design_ref="DESIGN.md 3 C19",
+        text="TLC explores every behaviour of the bisection algorithm (bracket check, direction test with reflection, midpoint with round-half-even at float resolution, "
+             "element-wise update, max_iter abort) for all monotone tables/targets/precisions of the bounded grid and checks Bracketed, WithinPrecision, IterationCount, "
+             "AbortOnlyWhenStuck, ElementwiseIndependent and Termination; the real bisect() must produce exactly the same evaluation points, result and error class; the "
+             "postcondition is then evaluated on 7 continuous monotone families with known inverses and on implied-volatility round trips of all four option types.",
+        note="Trusted: TLC/PlusCal translator, torch. Grid of 9 (thorough 17) points, E<=2 (3) elements. Ill-conditioned implied-vol cases (price change below 1e3 ulp) skipped and counted."),
+    "C20": dict(
+        engine="Clamp.tla + WW.tla / TLC -> replay",
+        technique="TLA+ case analysis vs max/min/where pipeline (Clamp.tla), band step and exact cube-relation tuples, helper formulas on exact lattices (WW.tla), checked by TLC and replayed bitwise into functions and modules",
+        category=MC, design_ref="DESIGN.md 3 C20",
+        text="TLC checks PipelineIsCases/ClampCases/SlopeLimits over all lattice inputs, bounds (absent, tied, inverted), slopes and both modes, and the band/width/bilerp properties; all cases are replayed "
+             "into clamp, leaky_clamp, Clamp, LeakyClamp (scalar and tensor bounds, float32/64), WhalleyWilmott with a scripted Black-Scholes stub and with the real one, ww_width, svi_variance/SVIVariance, bilerp, box_muller, realized_volatility.",
+        note="Trusted: TLC, torch. The helpers are single pure functions: the specification is an exact independent transcription on lattices where the result is exactly representable."),
 }
 
 NOT_APPLICABLE = [
